@@ -39,6 +39,14 @@ type filterWorld struct {
 	outMsgs  []fop
 	trig     map[uint64]bool // tag -> trigger
 	byTag    map[uint64]fop
+	log      []fev // what happened, in order: receptions, rounds started, deliveries
+	cur      uint64
+}
+
+type fev struct {
+	kind string // "recv", "start", "deliver"
+	h    uint64 // recv: node height at reception; start: the height started; deliver: the term
+	tag  uint64
 }
 
 type recHandler struct {
@@ -50,6 +58,7 @@ type recHandler struct {
 func (h *recHandler) HandleConsensusMessage(m interfaces.ConsensusMessage) error {
 	tag := uint64(m.View())
 	h.w.out = append(h.w.out, [2]uint64{h.term, tag})
+	h.w.log = append(h.w.log, fev{"deliver", h.term, tag})
 	if h.w.trig[tag] && !h.committed {
 		h.committed = true
 		h.w.advance(h.term + 1)
@@ -61,6 +70,8 @@ func (w *filterWorld) advance(h uint64) {
 	if _, err := w.st.SetHeightAndResetView(primitives.BlockHeight(h)); err != nil {
 		return
 	}
+	w.cur = h
+	w.log = append(w.log, fev{"start", h, 0})
 	w.filter.ConsumeCacheMessages(&recHandler{w: w, term: h})
 }
 
@@ -84,6 +95,7 @@ func runFilterSeq(kr *keyring, ops []fop, rep *Report) string {
 			w.trig[o.Tag] = o.Trigger
 			w.byTag[o.Tag] = o
 			recvAt[o.Tag] = i
+			w.log = append(w.log, fev{"recv", w.cur, o.Tag})
 			mf := messagesfactory.NewMessageFactory(primitives.InstanceId(o.Inst), &keyManager{kr, idBytes(o.Sender)}, idBytes(o.Sender), 0)
 			pm := mf.CreatePrepareMessage(primitives.BlockHeight(o.Height), primitives.View(o.Tag), hashToken(1))
 			w.filter.HandleConsensusRawMessage(pm.ToConsensusRawMessage())
@@ -108,6 +120,56 @@ func runFilterSeq(kr *keyring, ops []fop, rep *Report) string {
 		if seen[d[1]] > 1 {
 			rep.finding("C17", "delivered-twice", fmt.Sprintf("tag %d", m.Tag), ops)
 		}
+	}
+	// completeness: a proper message for a future height H is delivered when the node starts H, unless a proper message
+	// for a height above H was received before the node started H, or an earlier-received message of H made the node
+	// commit and leave H while the cache was being consumed
+	proper := func(m fop) bool { return m.Inst == filterInst && m.Sender != filterMe }
+	for i, e := range w.log {
+		if e.kind != "recv" {
+			continue
+		}
+		m := w.byTag[e.tag]
+		if !proper(m) || m.Height <= e.h {
+			continue
+		}
+		startAt := -1
+		for j := i + 1; j < len(w.log); j++ {
+			if w.log[j].kind == "start" && w.log[j].h >= m.Height {
+				if w.log[j].h == m.Height {
+					startAt = j
+				}
+				break
+			}
+		}
+		if startAt < 0 {
+			continue
+		}
+		excused := false
+		for j := 0; j < startAt; j++ {
+			if w.log[j].kind == "recv" {
+				o := w.byTag[w.log[j].tag]
+				if proper(o) && o.Height > w.log[j].h && o.Height > m.Height {
+					excused = true // the cache had moved on to a later height
+				}
+				if j < i && proper(o) && o.Height == m.Height && o.Height > w.log[j].h && o.Trigger {
+					excused = true // an earlier message of H completes H while the cache is consumed
+				}
+			}
+		}
+		if excused {
+			continue
+		}
+		delivered := false
+		for j := startAt; j < len(w.log); j++ {
+			if w.log[j].kind == "deliver" && w.log[j].tag == e.tag && w.log[j].h == m.Height {
+				delivered = true
+			}
+		}
+		if !delivered {
+			rep.finding("C17", "cached-message-not-delivered", fmt.Sprintf("message tag %d for height %d, received at height %d, was not delivered when the node started height %d", m.Tag, m.Height, e.h, m.Height), ops)
+		}
+		rep.count("monitor:cached-message-due")
 	}
 	// order: deliveries of one height respect arrival order
 	lastPos := map[uint64]int{}
